@@ -14,6 +14,7 @@
                  k = 10…15  MapDuration, MapDateTime, MapDate, MapTime, MapGYearMonth, MapGYear of a
                                                                                value HEXlex.HEXdt | !
                  k = 20 Decoder.xmlRender of node number a (decimal digits as ASCII; document order) value HEX | !
+                 k = 21 Decoder.htmlRender of node number a                                         value HEX | !
         tree   the DOM wire format of Driver/Mdd.lean (`N<typ>.<hex ns>.<hex atom>.<hex data>  A<ns>.<key>.<val>… kids… /`)
       → ok <u> <S> <P> <O>;…     u = 1 when Go's statement order was decided by map iteration
                                  S = I<hex> | B<n>   P = <hex>   O = I<hex> | B<n> | L<lex>.<dt>.<lang|->
@@ -65,7 +66,8 @@ def envOf (t : Table) : Env :=
     resolve := fun b v => optBytes t 2 b v,
     lower := lowerOf t,
     timeMaps := [timeOf t 10, timeOf t 11, timeOf t 12, timeOf t 13, timeOf t 14, timeOf t 15],
-    xmlRender := fun i => optBytes t 20 (asc (toString i)) [] }
+    xmlRender := fun i => optBytes t 20 (asc (toString i)) [],
+    htmlRender := fun i => optBytes t 21 (asc (toString i)) [] }
 
 def parseCfg (s : String) (base : Bytes) (pfx : Table) : Option Cfg :=
   match s.splitOn ":" with
